@@ -274,6 +274,20 @@ def run_conc_short():
                 I.oblige('ensures[SI]', z3.And(real(val) == exp, boolz(I.equals(n_, nb)), boolz(I.equals(d_, db))),
                          'property')
                 reuse(I, parts, out.value)
+                if parts[-1] == '%w/v':
+                    # '%w/v' means parts per hundred OF THE CONFIGURED UNITS: after the configuration changes (the suite
+                    # itself edits `config` at run time) the same text is read with the new units
+                    other = 'g/L' if wv_units() != 'g/L' else 'mg/mL'
+                    I.cfg.data['default_weight_volume_units'] = other
+                    (pn_, bn_), (pd_, bd_) = spec.split_unit(other.split('/')[0]), spec.split_unit(other.split('/')[1])
+                    again = vc.call(I, 'Unit.parse_concentration', [SegStr(list(parts))])
+                    if again.kind != 'return':
+                        I.oblige('ensures[config-change]', False, 'property', note=f'{again.exc.cls} after a configuration change')
+                    else:
+                        v2, n2, d2 = again.value
+                        I.oblige('ensures[config-change]', z3.And(real(v2) == v / 100 * spec.num(spec.SI[pn_]) / spec.num(spec.SI[pd_]),
+                                                                   boolz(I.equals(n2, bn_)), boolz(I.equals(d2, bd_))), 'property',
+                                 note=f"'v %w/v' after default_weight_volume_units was set to {other!r}")
             else:
                 I.oblige('ensures[SI]', False, 'property',
                          note=f"{out.exc.cls} at line {out.exc.lineno} for a string of the documented form")
